@@ -157,6 +157,9 @@ type simConn struct {
 	readArmed bool
 	delivered []byte // everything handed to the client so far
 	atStall   bool   // a Read waits for a broker that sends nothing
+	// slow Close
+	closeGate   bool
+	atCloseGate bool
 }
 
 func newSimConn(id int, log *eventLog) *simConn {
@@ -298,6 +301,12 @@ func (c *simConn) Write(p []byte) (int, error) {
 func (c *simConn) Close() error {
 	c.mu.Lock()
 	defer c.mu.Unlock()
+	for c.closeGate && !c.closed {
+		// a slow Close (TLS close_notify with a write pending, a lingering socket): it takes effect when the script says so
+		c.atCloseGate = true
+		c.cond.Wait()
+	}
+	c.atCloseGate = false
 	if !c.closed {
 		c.closed = true
 		c.log.add("ev close %d", c.id)
